@@ -14,8 +14,8 @@
    only (recursion) is not an initialisation cycle.
 
    IMPLEMENTATION-SHAPED: internal/compiler/checker_package.go sortDeclarations (the "Sorts
-   variables" loop and detectVarsLoop/checkDepsPath) over the dependencies collected by
-   checker_dependencies.go. *)
+   variables" loop with funcVarsResolved, and detectVarsLoop/checkDepsPath) over the dependencies
+   collected by checker_dependencies.go, which lists them in textual order. *)
 EXTENDS Integers, Sequences, FiniteSets
 
 IoRange(s) == {s[j] : j \in 1..Len(s)}
@@ -41,34 +41,85 @@ RefInit(deps, nv, done) ==
 RefOrder(deps, nv) == RefInit(deps, nv, <<>>)
 
 (* ---------- implementation-shaped *)
-\* checkDepsPath: depth-first over the dependencies of the last element of path; a loop is reported as
-\* soon as a dependency is already on the path - whatever kind of node it is
+\* checkDepsPath: depth-first over the dependencies (in textual order) of the last element of path; a loop
+\* is reported when a dependency is path[1] (the node the search started from); a dependency that is
+\* already on the path elsewhere closes a cycle that does not go through path[1] (recursive functions)
+\* and is skipped
 RECURSIVE DepsPath(_, _)
 DepsPath(deps, path) ==
   LET last == path[Len(path)] IN
   \E j \in 1..Len(deps[last]) :
-     LET d == deps[last][j] IN (\E p \in 1..Len(path) : path[p] = d) \/ DepsPath(deps, Append(path, d))
+     LET d == deps[last][j] IN
+     \/ d = path[1]
+     \/ (\A p \in 2..Len(path) : path[p] # d) /\ DepsPath(deps, Append(path, d))
 \* detectVarsLoop: for every variable
 ImplCyclic(deps, nv) == \E v \in 1..nv : DepsPath(deps, <<v>>)
+\* funcVarsResolved(name, deps, funcs, unresolved, seen): the dependencies of the function f are visited in
+\* textual order, `seen` (the cycle guard) is shared by the whole visit started by one dependency of one
+\* variable; result [ok, seen]
+RECURSIVE FuncResolved(_, _, _, _, _), FuncResolvedFrom(_, _, _, _, _, _)
+FuncResolved(deps, nv, unres, f, seen) ==
+  IF f \in seen THEN [ok |-> TRUE, seen |-> seen] ELSE FuncResolvedFrom(deps, nv, unres, f, 1, seen \cup {f})
+FuncResolvedFrom(deps, nv, unres, f, j, seen) ==
+  IF j > Len(deps[f]) THEN [ok |-> TRUE, seen |-> seen]
+  ELSE LET d == deps[f][j] IN
+       IF d <= nv THEN (IF d \in unres THEN [ok |-> FALSE, seen |-> seen] ELSE FuncResolvedFrom(deps, nv, unres, f, j + 1, seen))
+       ELSE LET r == FuncResolved(deps, nv, unres, d, seen) IN
+            IF ~r.ok THEN r ELSE FuncResolvedFrom(deps, nv, unres, f, j + 1, r.seen)
 \* "Sorts variables": the first remaining variable all of whose DIRECT dependencies are resolved - a
-\* dependency is resolved when it is an already sorted variable or ANY function
+\* dependency is resolved when it is an already sorted variable, or a function none of whose variables
+\* (also through other functions) is still unsorted
 IoRemoveAt(s, i) == SubSeq(s, 1, i - 1) \o SubSeq(s, i + 1, Len(s))
 RECURSIVE ImplSort(_, _, _, _)
 ImplSort(deps, nv, vars, sorted) ==
   IF vars = <<>> THEN sorted
   ELSE LET idx == {i \in 1..Len(vars) :
                      \A j \in 1..Len(deps[vars[i]]) :
-                        LET d == deps[vars[i]][j] IN d > nv \/ (\E s \in 1..Len(sorted) : sorted[s] = d)}
+                        LET d == deps[vars[i]][j] IN
+                        IF d <= nv THEN \E s \in 1..Len(sorted) : sorted[s] = d
+                        ELSE FuncResolved(deps, nv, IoRange(vars), d, {}).ok}
        IN IF idx = {} THEN sorted \o vars
           ELSE LET i == IoMin(idx) IN ImplSort(deps, nv, IoRemoveAt(vars, i), Append(sorted, vars[i]))
 ImplOrder(deps, nv) == ImplSort(deps, nv, [i \in 1..nv |-> i], <<>>)
+
+\* the declaration sort before commit f349351 (every function counted as resolved): kept only to name the
+\* cause of a wrong order in the signature of a finding ("function-dependencies-not-followed")
+RECURSIVE LegacySort(_, _, _, _)
+LegacySort(deps, nv, vars, sorted) ==
+  IF vars = <<>> THEN sorted
+  ELSE LET idx == {i \in 1..Len(vars) :
+                     \A j \in 1..Len(deps[vars[i]]) :
+                        LET d == deps[vars[i]][j] IN d > nv \/ (\E s \in 1..Len(sorted) : sorted[s] = d)}
+       IN IF idx = {} THEN sorted \o vars
+          ELSE LET i == IoMin(idx) IN LegacySort(deps, nv, IoRemoveAt(vars, i), Append(sorted, vars[i]))
+LegacyOrder(deps, nv) == LegacySort(deps, nv, [i \in 1..nv |-> i], <<>>)
+\* checkDepsPath before commit 249c3be (a dependency anywhere on the path is a loop): names the cause
+\* "recursion-reported-as-cycle"
+RECURSIVE LegacyDepsPath(_, _)
+LegacyDepsPath(deps, path) ==
+  LET last == path[Len(path)] IN
+  \E j \in 1..Len(deps[last]) :
+     LET d == deps[last][j] IN (\E p \in 1..Len(path) : path[p] = d) \/ LegacyDepsPath(deps, Append(path, d))
+LegacyCyclic(deps, nv) == \E v \in 1..nv : LegacyDepsPath(deps, <<v>>)
 
 \* outcome records: [cyc |-> BOOLEAN, order |-> sequence of variables]
 RefOutcomeIO(deps, nv) == IF RefCyclic(deps, nv) THEN [cyc |-> TRUE, order |-> <<>>] ELSE [cyc |-> FALSE, order |-> RefOrder(deps, nv)]
 ImplOutcomeIO(deps, nv) == IF ImplCyclic(deps, nv) THEN [cyc |-> TRUE, order |-> <<>>] ELSE [cyc |-> FALSE, order |-> ImplOrder(deps, nv)]
 
-(* ---------- graphs as increasing sequences of edge codes: edge (i -> j) over n nodes has code (i-1)*n + (j-1) *)
-RECURSIVE IncSeqs(_, _, _)
-IncSeqs(lo, hi, k) == {<<>>} \cup (IF k = 0 THEN {} ELSE UNION {{<<e>> \o t : t \in IncSeqs(e + 1, hi, k - 1)} : e \in lo..hi})
+(* ---------- graphs as increasing sequences of edge codes: edge (i -> j) over n nodes has code (i-1)*n + (j-1).
+   The dependencies of a node are listed in the order in which the source text mentions them: ascending
+   node numbers (DepsOf) or descending (DepsOfRev) - the reference does not look at that order. *)
+\* all increasing sequences over lo..hi of length <= k, as a sequence (built by concatenation: UNION over sets
+\* of sequences is quadratic in TLC)
+IoPrefixAll(e, T) == [i \in 1..Len(T) |-> <<e>> \o T[i]] \o <<>>      \* (T as an argument: evaluated once; \o <<>> materialises)
+RECURSIVE IncSeqs(_, _, _), IncSeqsFrom(_, _, _)
+IncSeqs(lo, hi, k) == <<<<>>>> \o (IF k = 0 THEN <<>> ELSE IncSeqsFrom(lo, hi, k))
+IncSeqsFrom(e, hi, k) == IF e > hi THEN <<>> ELSE IoPrefixAll(e, IncSeqs(e + 1, hi, k - 1)) \o IncSeqsFrom(e + 1, hi, k)
 DepsOf(es, n) == [i \in 1..n |-> SelectSeq([j \in 1..n |-> j], LAMBDA j : \E q \in 1..Len(es) : es[q] = (i - 1) * n + (j - 1))]
+IoReverse(s) == [j \in 1..Len(s) |-> s[Len(s) + 1 - j]]
+DepsOfRev(es, n) == LET d == DepsOf(es, n) IN [i \in 1..n |-> IoReverse(d[i])]
+\* the edge codes of the "through functions" graphs: every edge has a function at one end at least
+\* (variable -> function, function -> function incl. recursion, function -> variable)
+ThruCodes(nv, n) == SelectSeq([c \in 1..(n * n) |-> c - 1], LAMBDA c : (c \div n) + 1 > nv \/ (c % n) + 1 > nv)
+AllCodes(n) == [c \in 1..(n * n) |-> c - 1]
 =============================================================================
